@@ -145,7 +145,8 @@ func generateUnixSocket(transportServerEx *TransportServerEx) string {
 }
 
 func generateSSLConfig(ts *conf_v1.TransportServer, tls *conf_v1.TransportServerTLS, namespace string, secretRefs map[string]*secrets.SecretReference) (*version2.StreamSSL, Warnings) {
-	if tls == nil {
+	// validation accepts an empty tls block (no Secret) when no host is set: there is nothing to terminate TLS with
+	if tls == nil || tls.Secret == "" {
 		return &version2.StreamSSL{Enabled: false}, nil
 	}
 
